@@ -1,10 +1,26 @@
 package sequence
 
-import "sync/atomic"
+import (
+	"sync"
+	"sync/atomic"
+)
 
 type Seq uint64
 
 var seq uint64
+
+// horizonM makes "draw a sequence and register the transaction" (Begin) one step as
+// far as "take the oldest registered transaction, or else a fresh sequence, as the
+// collection horizon" (the collector) is concerned, and the other way round.
+var horizonM sync.Mutex
+
+func LockHorizon() {
+	horizonM.Lock()
+}
+
+func UnlockHorizon() {
+	horizonM.Unlock()
+}
 
 func Set(s Seq) {
 	// Raise the counter to s; never lower it: another database opened earlier
